@@ -18,6 +18,10 @@ def zstd_files(rnd):
             chunks = [d] + [corpus.text(rnd, n) for n in (90, 40, 120)]
             buf, stored = ref.build_file(chunks, comp_type=2, hash_type=1, chunk_hash_type=1 if flags else 3, flags=flags, level=3)
             out.append(("z-d%d-f%d" % (int(dic), flags), buf, chunks))
+    # repeated identical chunks (one checksum several times in the index): every copy is verified on its own
+    rep = corpus.text(rnd, 90)
+    chunks = [b""] + [rep, corpus.text(rnd, 40), rep, corpus.text(rnd, 70), rep]
+    out.append(("z-dup", ref.build_file(chunks, comp_type=2, hash_type=1, chunk_hash_type=3, level=3)[0], chunks))
     chunks = [b""] + [corpus.text(rnd, n) for n in (90, 40, 120)]
     out.append(("z-padded", ref.build_file(chunks, comp_type=2, hash_type=1, chunk_hash_type=3, level=3, pad=9)[0], chunks))
     return out
